@@ -419,7 +419,7 @@ func parseClauses(c *Contract, d *directive) error {
 				c.Lets = append(c.Lets, LetDef{strings.TrimSpace(part[:i]), e})
 			}
 		default:
-			m := labelRe.FindStringSubmatch(cl)
+			m := splitClauseHead(cl)
 			if m == nil {
 				return fmt.Errorf("bad clause %q", cl)
 			}
@@ -511,4 +511,40 @@ func ifaceMethodKey(m *types.Func) string {
 		return m.Pkg().Path() + ".?." + m.Name()
 	}
 	return "?." + m.Name()
+}
+
+// splitClauseHead parses "keyword[label with [nested] brackets] text" into {whole, keyword, "[label]", label, text}.
+func splitClauseHead(cl string) []string {
+	for _, kw := range []string{"requires", "ensures", "invariant", "decreases", "assert"} {
+		if !strings.HasPrefix(cl, kw) {
+			continue
+		}
+		rest := cl[len(kw):]
+		label := ""
+		if strings.HasPrefix(rest, "[") {
+			depth := 0
+			end := -1
+			for i := 0; i < len(rest); i++ {
+				if rest[i] == '[' {
+					depth++
+				} else if rest[i] == ']' {
+					depth--
+					if depth == 0 {
+						end = i
+						break
+					}
+				}
+			}
+			if end < 0 {
+				return nil
+			}
+			label = rest[1:end]
+			rest = rest[end+1:]
+		}
+		if rest == "" || (rest[0] != ' ' && rest[0] != '\t') {
+			return nil
+		}
+		return []string{cl, kw, "[" + label + "]", label, strings.TrimSpace(rest)}
+	}
+	return nil
 }
